@@ -694,8 +694,82 @@ func (g *genCtx) decItems(stmts []ast.Stmt) []wItem {
 type genType struct {
 	name                                   string
 	enc, encBare, dec, decBare, setFlags   *ast.FuncDecl
-	typeID                                 *ast.FuncDecl
+	typeID, zero                           *ast.FuncDecl
 	file                                   *ast.File
+}
+
+// c21Zero (R6): Zero() decides in SetFlags of the parent whether an optional nested
+// object is written at all, so it must look at every field of the struct.
+func c21Zero(c *engine.Ctx, p *packages.Package, key string, gt *genType) {
+	if gt.zero == nil {
+		return
+	}
+	obj := p.Types.Scope().Lookup(gt.name)
+	if obj == nil {
+		return
+	}
+	st, ok := obj.Type().Underlying().(*types.Struct)
+	if !ok {
+		return
+	}
+	_, recv := recvTypeName(gt.zero)
+	seen := map[string]bool{}
+	bad := ""
+	body := gt.zero.Body.List
+	for i, s := range body {
+		if i == len(body)-1 {
+			rs, isR := s.(*ast.ReturnStmt)
+			if !isR || len(rs.Results) != 1 {
+				bad = "last statement is not `return true`"
+			} else if id, isI := rs.Results[0].(*ast.Ident); !isI || id.Name != "true" {
+				bad = "last statement is not `return true`"
+			}
+			continue
+		}
+		iff, isIf := s.(*ast.IfStmt)
+		if !isIf || iff.Init != nil || iff.Else != nil || len(iff.Body.List) != 1 {
+			bad = "statement is not `if !(field is zero) { return false }`"
+			continue
+		}
+		if i == 0 {
+			if x, okN := isNilCheckReturn(s); okN {
+				if id, isI := x.(*ast.Ident); isI && id.Name == recv {
+					continue
+				}
+			}
+		}
+		un, isU := iff.Cond.(*ast.UnaryExpr)
+		rs, isR := iff.Body.List[0].(*ast.ReturnStmt)
+		if !isU || un.Op != token.NOT || !isR || len(rs.Results) != 1 {
+			bad = "statement is not `if !(field is zero) { return false }`"
+			continue
+		}
+		if id, isI := rs.Results[0].(*ast.Ident); !isI || id.Name != "false" {
+			bad = "a non-zero field must make Zero() return false"
+			continue
+		}
+		found := false
+		ast.Inspect(un.X, func(n ast.Node) bool {
+			if found {
+				return false
+			}
+			if sel, isS := n.(*ast.SelectorExpr); isS {
+				if id, isI := sel.X.(*ast.Ident); isI && id.Name == recv {
+					seen[sel.Sel.Name] = true
+					found = true
+					return false
+				}
+			}
+			return true
+		})
+	}
+	var missing []string
+	for i := 0; i < st.NumFields(); i++ {
+		if !seen[st.Field(i).Name()] {
+			missing = append(missing, st.Field(i).Name())
+		}
+	}
+	c.Check(bad == "" && len(missing) == 0, "C21.R6", key+"/zero-covers-every-field", gt.zero.Pos(), "Zero() must test every field (the parent's SetFlags uses it to decide whether this object is written at all): fields not tested %v %s", missing, bad)
 }
 
 func recvTypeName(fd *ast.FuncDecl) (string, string) {
@@ -811,6 +885,8 @@ func c21Package(c *engine.Ctx, rel string, p *packages.Package) (nTypes, nCond, 
 				gt.setFlags = fd
 			case "TypeID":
 				gt.typeID = fd
+			case "Zero":
+				gt.zero = fd
 			}
 		}
 	}
@@ -913,6 +989,7 @@ func c21Package(c *engine.Ctx, rel string, p *packages.Package) (nTypes, nCond, 
 		}
 		// identity
 		c21Identity(c, p, key, gt, regNames, regCtors)
+		c21Zero(c, p, key, gt)
 		// safe subset
 		c21Safe(c, p, key, gt.decBare)
 		if gt.dec != nil {
